@@ -425,6 +425,31 @@ pub fn evaluate_cases(ctx: &Ctx, rep: &mut Report, cases: &[Case], hash_only: bo
         }
     }
     }
+    if ctx.replay.is_none() {
+        // `by = ..` functions built around a macro_rules! expr fragment: the comparison the user wrote decides, not a
+        // re-grouped one (`(a * $e)` with `$e = 0 + 1` is `a * (0 + 1)`); Hash likewise
+        let mut x: Vec<crate::xrun::XCase> = Vec::new();
+        for (entry, ex) in [("attr", ""), ("derive", "#[derive(Ex)] ")] {
+            let code = format!("use derive_ex::{{derive_ex, Ex}};\nmacro_rules! mk {{ ($e:expr) => {{ {ex}#[derive_ex(Ord, PartialOrd, Eq, PartialEq, Hash)] pub struct X {{ #[ord(by = |a: &u32, b: &u32| ::core::cmp::Ord::cmp(&(a * $e), &(b * $e)))] #[hash(by = |a: &u32, s| ::core::hash::Hash::hash(&(a * $e), s))] pub a: u32, pub b: u8 }} }} }}\nmk!(0 + 1);\npub fn run() -> String {{ let v = [X {{ a: 1, b: 0 }}, X {{ a: 2, b: 0 }}, X {{ a: 2, b: 1 }}]; let mut out = String::new(); for p in &v {{ for q in &v {{ out.push_str(&format!(\"{{}}{{:?}}{{:?}};\", p == q, ::core::cmp::PartialOrd::partial_cmp(p, q), ::core::cmp::Ord::cmp(p, q))); }} }} out.push_str(&format!(\"h{{}}\", dxrt::RecHasher::of(&v[0]) != dxrt::RecHasher::of(&v[1]))); out }}\n");
+            let expected = {
+                let v = [(1u32, 0u8), (2, 0), (2, 1)];
+                let mut o = String::new();
+                for p in &v {
+                    for q in &v {
+                        let c = p.cmp(q);
+                        o.push_str(&format!("{}{:?}{:?};", c == std::cmp::Ordering::Equal, Some(c), c));
+                    }
+                }
+                o.push_str("htrue");
+                o
+            };
+            let mut atoms = BTreeSet::new();
+            atoms.insert(format!("entry={entry}"));
+            atoms.insert("by=around-an-expr-fragment".to_string());
+            x.push(crate::xrun::XCase { text: format!("{entry} by = |a, b| cmp(&(a * $e), &(b * $e)) [$e = 0 + 1]"), code, expected, atoms, nontrivial: true, detail: json!({"gen": "by-fragment", "entry": entry}), what: format!("derive_ex(Ord, PartialOrd, Eq, PartialEq, Hash) via {entry} with `by` functions built around an expr fragment"), inner: 9, symptom: "cmp-differs".into(), must_compile: true });
+        }
+        crate::xrun::run_and_compare(rep, "c01b", &x);
+    }
     rep.set("compiled_and_executed", json!(rep.validated));
     rep.set("rustc_invocations", json!(runner::STATS.rustc_invocations.load(std::sync::atomic::Ordering::Relaxed)));
     rep.set("rustc_rounds_max", json!(runner::STATS.rounds_max.load(std::sync::atomic::Ordering::Relaxed)));
